@@ -289,6 +289,10 @@ def run_doc(job):
     """execute one concrete document through one API in one form; returns None or a message.
     job: {lines:[text], form, final_nl, api, expected:[[[k,v]]], expected_dump}"""
     texts, form, api = job["lines"], job["form"], job["api"]
+    if api == "leak":
+        return run_leak(job)
+    if api == "keepalive":
+        return run_keepalive(job)
     x = make_input(form, texts, job.get("final_nl", True))
     exp = [[tuple(kv) for kv in p] for p in job["expected"]]
     if api == "iter":
@@ -316,6 +320,121 @@ def run_doc(job):
     return None
 
 
+# ------------------------------------------------------------------ independence of calls
+NEW_KEY = "Zz-New"
+
+
+def mutate(p, kind="heavy"):
+    """what a CALLER may do to a paragraph he got (Mut(val, kind) of Deb822ReaderCalls);
+    exceptions here concern the mapping (C09), not the reader"""
+    try:
+        keys = list(p)
+        if kind in ("heavy", "poison"):
+            for k in keys:
+                p[k] = "poison"
+        if kind in ("heavy", "del") and keys:
+            del p[keys[0]]
+        if kind in ("heavy", "add"):
+            p[NEW_KEY] = "x"
+        if kind == "heavy":
+            p.order_first(NEW_KEY)
+        if kind == "first" and keys:
+            p.order_first(keys[-1])
+        return None
+    except Exception as e:
+        return "%s: %s" % (type(e).__name__, e)
+
+
+def items_of(p):
+    try:
+        return [(k, p[k]) for k in p]
+    except Exception as e:
+        return ("EXC", "%s: %s" % (type(e).__name__, e))
+
+
+def run_leak(job):
+    """the result of a parse must not depend on earlier parses of the same text, on what the caller
+    did to earlier results, nor on other iterations in progress.
+    job: {lines, form, form2, expected, expected_dump, other_lines, other_expected}"""
+    texts, fa, fb = job["lines"], job["form"], job["form2"]
+    exp = [[tuple(kv) for kv in p] for p in job["expected"]]
+    oth = job.get("other_lines")
+    oexp = [[tuple(kv) for kv in p] for p in job.get("other_expected") or []]
+    # (2) + (4): iter_paragraphs three times, the caller ruins every result in between
+    seen = []
+    for rnd, form in enumerate((fa, fa, fb)):
+        got, ps = read_iter("Deb822", make_input(form, texts))
+        if got != exp:
+            return ("parse #%d of the same text (<%s>, earlier results mutated by the caller): "
+                    "list(Deb822.iter_paragraphs(x)) = %r, specification: %r" % (rnd + 1, form, got, exp))
+        if any(a is b for a in ps for b in seen):
+            return "parse #%d of the same text (<%s>) returned a paragraph object that was returned before" % (rnd + 1, form)
+        if len(set(map(id, ps))) != len(ps):
+            return "iter_paragraphs(<%s>) yielded the same object for two paragraphs" % form
+        if rnd == 2:
+            d = dump_all(ps)
+            if job.get("expected_dump") is not None and d != job["expected_dump"]:
+                return "dump() after earlier results were mutated (<%s>) = %r, first dump %r" % (form, d, job["expected_dump"])
+        if len(ps) >= 2:
+            mutate(ps[0])
+            rest = [items_of(p) for p in ps[1:]]
+            if rest != exp[1:]:
+                return ("mutating the first paragraph of list(iter_paragraphs(<%s>)) changed the following ones: %r, "
+                        "specification: %r" % (form, rest, exp[1:]))
+        for p in ps:
+            mutate(p)
+        seen += ps
+    # (2): Deb822(x) three times
+    if exp:
+        for rnd, form in enumerate((fa, fa, fb)):
+            got, p = read_one("Deb822", make_input(form, texts))
+            if got != exp[0]:
+                return ("parse #%d of the same text (<%s>, earlier results mutated by the caller): Deb822(x) = %r, "
+                        "specification: %r" % (rnd + 1, form, got, exp[0]))
+            if any(p is b for b in seen):
+                return "Deb822(<%s>) #%d returned an object that was returned before" % (form, rnd + 1)
+            mutate(p)
+            seen.append(p)
+    # (3): two generators in progress at the same time
+    try:
+        from debian.deb822 import Deb822
+        it1 = Deb822.iter_paragraphs(make_input(fa, texts), use_apt_pkg=False)
+        head = [next(it1)] if exp else []
+        o_lines, o_exp = (oth, oexp) if oth is not None else (texts, exp)
+        it2 = Deb822.iter_paragraphs(make_input(fb, o_lines), use_apt_pkg=False)
+        second = []
+        for p in it2:
+            second.append(p)
+            if len(second) == 1 and exp:
+                head += [x for _, x in zip(range(1), it1)]      # alternate once
+        first = head + list(it1)
+        got1, got2 = [items_of(p) for p in first], [items_of(p) for p in second]
+    except Exception as e:
+        return "interleaved iter_paragraphs generators raised %s: %s" % (type(e).__name__, e)
+    if got1 != exp or got2 != o_exp:
+        return ("two iter_paragraphs generators in progress (<%s> / <%s>): first gives %r (specification %r), second %r "
+                "(specification %r)" % (fa, fb, got1, exp, got2, o_exp))
+    if len(set(map(id, first + second))) != len(first + second):
+        return "two iter_paragraphs generators in progress yielded a shared object"
+    job["_keep"] = (first, exp)
+    return None
+
+
+def run_keepalive(job):
+    """objects parsed earlier stay what they were while other documents are parsed"""
+    exp = [[tuple(kv) for kv in p] for p in job["expected"]]
+    got, ps = read_iter("Deb822", make_input(job["form"], job["lines"]))
+    if got != exp:
+        return "list(Deb822.iter_paragraphs(<%s>)) = %r, specification: %r" % (job["form"], got, exp)
+    for form in FORMS:
+        read_iter("Deb822", make_input(form, job["then_lines"]))
+        read_one("Deb822", make_input(form, job["then_lines"]))
+    now = [items_of(p) for p in ps]
+    if now != exp:
+        return "paragraphs parsed earlier changed while another document was parsed: %r, were %r" % (now, exp)
+    return None
+
+
 # ------------------------------------------------------------------ (a) CASE replay
 
 class CaseConc:
@@ -323,7 +442,7 @@ class CaseConc:
 
     def __init__(self, rng, case, canonical=False):
         self.key = {}
-        taken = set()
+        taken = {NEW_KEY.lower()}
         self.text = {0: ""}
         self.pad = {}
         for p in case["doc"]:
@@ -465,7 +584,7 @@ def variants(rng, base, np_, full, armor_hdrs, armor_ok=True, sig_bools=(True, F
             yield tag + "+lead-ws", lead_seq(rng, ws=True) + a, True
 
 
-def replay_case(drifts, case, rng, canonical, full, stats, armor_hdrs, armor_fields=3, sig_bools=(True, False)):
+def replay_case(drifts, case, rng, canonical, full, stats, armor_hdrs, armor_fields=3, sig_bools=(True, False), prev=None):
     """returns list of (job, message) violations; diagnostic mismatches are appended to drifts"""
     conc = CaseConc(rng, case, canonical)
     np_ = len(case["doc"])
@@ -498,6 +617,20 @@ def replay_case(drifts, case, rng, canonical, full, stats, armor_hdrs, armor_fie
             if msg:
                 bad.append((job, msg))
         stats["variant:padded-dump"] = stats.get("variant:padded-dump", 0) + 1
+    # independence of calls: same text parsed repeatedly with the caller ruining the results in between,
+    # generators interleaved with the previous case's document
+    fa = rng.choice(FORMS)
+    fb = rng.choice([f for f in FORMS if f != fa])
+    job = {"lines": textT.split("\n")[:-1], "form": fa, "form2": fb, "api": "leak", "expected": exp_json,
+           "expected_dump": textT, "variant": "calls",
+           "other_lines": prev["lines"] if prev else None, "other_expected": prev["expected"] if prev else None}
+    stats["runs"] += 9
+    stats["variant:calls"] = stats.get("variant:calls", 0) + 1
+    msg = run_leak(job)
+    keep = job.pop("_keep", None)
+    if msg:
+        bad.append((job, msg))
+    stats["_keep"] = {"objs": keep[0] if keep else [], "lines": job["lines"], "expected": exp_json, "form": fa}
     vs = base_jobs if base_jobs is not None else variants(
         rng, model, np_, full, armor_hdrs, armor_ok=sum(len(p) for p in case["doc"]) <= armor_fields, sig_bools=sig_bools)
     nforms = len(FORMS)
@@ -549,6 +682,7 @@ def replay_chunk(args):
         sys.path.insert(0, lib)
     stats = {"runs": 0, "full": 0}
     drifts, bad = [], []
+    prev = None
     for idx, case in items:
         nfields = sum(len(p) for p in case["doc"])
         for c in range(k):
@@ -556,8 +690,21 @@ def replay_chunk(args):
             full = (nfields <= 2) if quick else (nfields <= 3 and c == 0)
             stats["full"] += full
             b = replay_case(drifts, case, crng, canonical=(c == 0 and idx % 2 == 0), full=full, stats=stats,
-                            armor_hdrs=armor_hdrs, armor_fields=armor_fields, sig_bools=(True,) if quick else (True, False))
+                            armor_hdrs=armor_hdrs, armor_fields=armor_fields, sig_bools=(True,) if quick else (True, False),
+                            prev=prev)
             bad += [(idx, job, msg) for job, msg in b]
+            cur = stats.pop("_keep", None)
+            # (1) the objects of the previous case are still alive: they must not have changed
+            if prev is not None and cur is not None:
+                now = [items_of(p) for p in prev["objs"]]
+                want = [[tuple(kv) for kv in p] for p in prev["expected"]]
+                stats["keepalive_checks"] = stats.get("keepalive_checks", 0) + 1
+                if now != want:
+                    bad.append((idx, {"api": "keepalive", "lines": prev["lines"], "form": prev["form"], "expected": prev["expected"],
+                                      "then_lines": cur["lines"], "variant": "keepalive"},
+                                "paragraphs parsed for the previous document changed while this one was handled: %r, were %r"
+                                % (now, want)))
+            prev = cur if cur is not None else prev
         if len(bad) >= 5:
             break
         del drifts[20:]
@@ -626,14 +773,17 @@ def proj(paragraphs):
     return [[{"k": k, "v": v.split("\n")} for k, v in p] for p in paragraphs]
 
 
-def record(lines, form, final_nl=True, strict=None):
-    """prefix closure: the real reader on the first i lines, i = 1..n"""
+def record(lines, form, final_nl=True, strict=None, keep=None):
+    """prefix closure: the real reader on the first i lines, i = 1..n
+    (keep: list that receives the paragraph objects of the complete document)"""
     texts = [ln["text"] for ln in lines]
     obs = []
     res = []
     for i in range(1, len(texts) + 1):
         last_nl = final_nl or i < len(texts) or texts[i - 1] == ""
-        res, _ = read_iter("Deb822", make_input(form, texts[:i], last_nl), strict)
+        res, ps = read_iter("Deb822", make_input(form, texts[:i], last_nl), strict)
+        if keep is not None and i == len(texts):
+            keep[:] = ps or []
         if isinstance(res, tuple):
             obs.append({"np": -1, "last": [], "exc": res[1]})
         else:
@@ -731,6 +881,94 @@ def walk_doc(rng, g, start, n, ws2=False):
     return lines
 
 
+# ---- replay of the call-level LTS of spec/Deb822ReaderCalls.tla
+
+CALL_SCRIPTS = [
+    [("parse", [1]), ("mutate", [1, "heavy"]), ("parse", [1]), ("mutate", [2, "heavy"]), ("parse", [1])],
+    [("parse", [2]), ("mutate", [1, "heavy"]), ("parse", [2]), ("mutate", [2, "heavy"]), ("parse", [2])],
+    [("open", [1]), ("next", [1]), ("open", [2]), ("next", [2]), ("next", [1]), ("next", [2]), ("next", [1])],
+    [("open", [1]), ("next", [1]), ("mutate", [1, "heavy"]), ("next", [1]), ("next", [1]), ("parse", [1])],
+    [("open", [1]), ("open", [1]), ("next", [1]), ("next", [2]), ("mutate", [1, "heavy"]), ("next", [1])],
+    [("parse", [2]), ("open", [2]), ("mutate", [1, "heavy"]), ("next", [1]), ("next", [1])],
+    [("parse", [1]), ("open", [1]), ("next", [1]), ("mutate", [1, "heavy"]), ("mutate", [2, "heavy"]), ("next", [1])],
+    [("open", [2]), ("open", [1]), ("next", [2]), ("next", [1]), ("next", [2]), ("next", [1])],
+]
+
+
+def follow(g, script):
+    state, path = g.init, []
+    for op, args in script:
+        nxt = [e for e in g.out.get(state, []) if e["op"] == op and e["args"] == args]
+        if not nxt:
+            break
+        path.append(nxt[0])
+        state = nxt[0]["_t"]
+    return path
+
+
+def calls_conc(rng, docs, canonical=False):
+    conc = CaseConc(rng, {"doc": [p for d in docs for p in d["doc"]]}, canonical)
+    conc.key[99] = NEW_KEY
+    conc.text[666] = "poison"
+    conc.text[667] = "x"
+    texts = [[conc.line(ln)["text"] for ln in d["lines"]] for d in docs]
+    return conc, texts
+
+
+def calls_steps(rng, path, conc):
+    steps = []
+    for e in path:
+        expect = [{"items": [[conc.key[f["k"]], "\n".join(conc.text[t] for t in f["v"])] for f in o["val"]], "mut": o["mut"]}
+                  for o in e["to"]["heap"]]
+        steps.append({"op": e["op"], "args": e["args"], "res": e["res"], "form": rng.choice(FORMS), "expect": expect})
+    return steps
+
+
+def exec_calls(steps, texts, drifts=None):
+    """perform the calls of one behaviour of Deb822ReaderCalls on the real classes; after every call
+    every object handed out so far must show what the specification says (objects the caller has
+    mutated himself: diagnostic only)"""
+    from debian.deb822 import Deb822
+    objs, iters = [], []
+    for n, st in enumerate(steps):
+        op, args = st["op"], st["args"]
+        where = "call %d %s%r <%s>" % (n + 1, op, tuple(args), st["form"])
+        new = None
+        try:
+            if op == "parse":
+                new = Deb822(make_input(st["form"], texts[args[0] - 1]))
+            elif op == "open":
+                iters.append(Deb822.iter_paragraphs(make_input(st["form"], texts[args[0] - 1]), use_apt_pkg=False))
+            elif op == "next":
+                try:
+                    new = next(iters[args[0] - 1])
+                except StopIteration:
+                    new = "STOP"
+            elif op == "mutate":
+                mutate(objs[args[0] - 1], args[1])
+        except Exception as e:
+            return "%s raised %s: %s" % (where, type(e).__name__, e)
+        if op in ("parse", "next"):
+            if st["res"] == 0:
+                if new != "STOP":
+                    return "%s returned a paragraph %r, specification: StopIteration" % (where, items_of(new))
+            else:
+                if isinstance(new, str):
+                    return "%s raised StopIteration, specification: paragraph %r" % (where, st["expect"][st["res"] - 1]["items"])
+                if any(new is o for o in objs):
+                    return "%s returned an object that was handed out before" % where
+                objs.append(new)
+        for j, e in enumerate(st["expect"]):
+            got, want = items_of(objs[j]), [tuple(kv) for kv in e["items"]]
+            if got != want:
+                if e["mut"]:
+                    if drifts is not None:
+                        drifts.append("%s: object %d mutated by the caller shows %r, specification %r" % (where, j + 1, got, want))
+                else:
+                    return "%s: paragraph object %d shows %r, specification: %r" % (where, j + 1, got, want)
+    return None
+
+
 # ------------------------------------------------------------------ TLC configurations
 
 def cfg_text(name, **sub):
@@ -800,20 +1038,31 @@ def run(ctx):
     for const, val, inv in controls:
         light.append(dict(name="neg:%s=%s" % (const, val), expect=inv, workers=1, tags=set(),
                           cfg=cfg_text("MC_Deb822Reader_bnd.cfg", MaxTotal="2", MaxCont="1", ArmorHdrs="{1}", **{const: val})))
+    kinds = '{"heavy"}' if quick else '{"heavy", "del", "first"}'
+    light.append(dict(name="calls", module="Deb822ReaderCalls", workers=1, tags={"EDGE", "DOCS"},
+                      cfg=cfg_text("MC_Deb822ReaderCalls.cfg", Kinds=kinds)))
+    call_controls = [("SharedResults", "INVARIANT ReturnedFresh", "ReturnedFresh"),
+                     ("SharedIterObject", "PROPERTY NoSpontaneousChange", "NoSpontaneousChange")]
+    for const, prop, inv in (call_controls if not quick else [call_controls[ctx.seed % 2]]):
+        import re as _re
+        c = cfg_text("MC_Deb822ReaderCalls.cfg", Kinds='{"heavy"}', Emit="FALSE", **{const: "TRUE"})
+        c = _re.sub(r"(?m)^(INVARIANT|PROPERTY) .*\n", "", c) + prop + "\n"
+        light.append(dict(name="neg:%s=TRUE" % const, module="Deb822ReaderCalls", expect=inv, workers=1, tags=set(), cfg=c))
     timeout = 900 if quick else 3600
 
     def one(j):
-        return core.run_tlc("Deb822Reader", j["cfg"], ctx.work, workers=j["workers"], want_tags=j["tags"], timeout=timeout)
+        return core.run_tlc(j.get("module", "Deb822Reader"), j["cfg"], ctx.work, workers=j["workers"], want_tags=j["tags"],
+                            timeout=timeout)
 
     # the heavy configurations in two chains sharing the worker budget, the light ones (1 worker) beside them
-    with ThreadPoolExecutor(max_workers=2) as hx, ThreadPoolExecutor(max_workers=2) as lx:
+    with ThreadPoolExecutor(max_workers=2) as hx, ThreadPoolExecutor(max_workers=3) as lx:
         f_heavy = [hx.submit(one, j) for j in heavy]
         f_light = [lx.submit(one, j) for j in light]
         jobs = light + heavy
         results = [f.result() for f in f_light + f_heavy]
     res = {}
     for j, r in zip(jobs, results):
-        ctx.tlc_runs.append({"module": "Deb822Reader", "config": j["name"], "generated": r.generated, "distinct": r.distinct,
+        ctx.tlc_runs.append({"module": j.get("module", "Deb822Reader"), "config": j["name"], "generated": r.generated, "distinct": r.distinct,
                              "depth": r.depth, "wall_s": round(r.wall, 2), "violated": r.violated})
         if j.get("expect"):
             if r.violated != j["expect"]:
@@ -897,16 +1146,71 @@ def run(ctx):
 
     tm["replay"] = round(time.time() - t_, 1)
     t_ = time.time()
+    # 2b. behaviours of the call-level model (Deb822ReaderCalls): scripted and random call sequences
+    cedges = res["calls"].printed.get("EDGE", [])
+    cdocs = (res["calls"].printed.get("DOCS") or [None])[0]
+    if len(cedges) != res["calls"].generated - 1 or not isinstance(cdocs, list) or any(d["parse"] != d["doc"] for d in cdocs):
+        raise core.MachineryError("call-level model: %d EDGE lines for %d generated states / DOCS line missing"
+                                  % (len(cedges), res["calls"].generated))
+    cinit = [e["from"] for e in cedges if not e["from"]["heap"] and not e["from"]["its"]][0]
+    cg = LTS(cedges, cinit)
+    nrep, nwalks = (8, 200) if quick else (100, 6000)
+    paths = []
+    for sc in CALL_SCRIPTS:
+        pth = follow(cg, sc)
+        if len(pth) < 3:
+            raise core.MachineryError("call script %r cannot be followed in the emitted LTS" % (sc,))
+        paths += [pth] * nrep
+    for _ in range(nwalks):
+        paths.append(cg.walk(rng, cg.init, rng.randint(3, 11), weight=lambda x: 1 if x["op"] == "mutate" else 2))
+    ncalls = 0
+    cdrifts = []
+    cops = {}
+    for n, pth in enumerate(paths):
+        crng = random.Random("%s-calls-%d" % (ctx.seed, n))
+        conc, texts = calls_conc(crng, cdocs, canonical=(n % 7 == 0))
+        steps = calls_steps(crng, pth, conc)
+        ncalls += len(steps)
+        for st in steps:
+            cops[st["op"]] = cops.get(st["op"], 0) + 1
+        msg = exec_calls(steps, texts, cdrifts)
+        ctx.case_seen(("calls", n), True)
+        if msg:
+            ctx.violation({"kind": "calls", "steps": steps, "texts": texts}, msg)
+            if len(ctx.violations) >= 5:
+                break
+    for d in cdrifts[:3]:
+        ctx.drift(d)
+    ctx.traces += len(paths)
+    ctx.evaluations += ncalls
+    ctx.extra["calls"] = {"lts_states": len(cg.states), "lts_edges": len(cg.edges), "behaviours_replayed": len(paths),
+                          "calls_executed": ncalls, "per_op": cops, "kinds": kinds}
+    ctx.sample("call behaviour: " + " ; ".join("%s%s" % (e["op"], tuple(e["args"])) for e in follow(cg, CALL_SCRIPTS[2])))
+    tm["calls"] = round(time.time() - t_, 1)
+    t_ = time.time()
     # 3. (b) recorded documents, prefix by prefix, validated by TLC
     ndocs = 250 if quick else 4000
     traces, meta = [], []
+    prev_keep = None
     for i in range(ndocs):
         lines = gen_doc(rng)
         check_domain(lines)
         form = FORMS[i % len(FORMS)]
         final_nl = not (lines[-1]["text"] != "" and rng.random() < 0.3)
-        traces.append(record(lines, form, final_nl))
+        keep = []
+        traces.append(record(lines, form, final_nl, keep=keep))
         meta.append({"texts": [ln["text"] for ln in lines], "form": form, "final_nl": final_nl})
+        # the objects of the previous document are still alive: they must still show what was recorded
+        # for them (and what TLC validates below)
+        if prev_keep is not None:
+            now = proj([r if not isinstance(r, tuple) else [("EXC", r[1])] for r in map(items_of, prev_keep)])
+            if now != traces[-2]["final"] and len(ctx.violations) < 5:
+                ctx.violation({"kind": "doc", "job": {"api": "keepalive", "lines": meta[-2]["texts"], "form": meta[-2]["form"],
+                                                      "expected": [[[f["k"], "\n".join(f["v"])] for f in p] for p in traces[-2]["final"]],
+                                                      "then_lines": meta[-1]["texts"]}},
+                              "paragraphs of the previous recorded document changed while the next one was parsed: %r, were %r"
+                              % (now, traces[-2]["final"]))
+        prev_keep = keep
     # diagnostic documents: walks over the emitted automaton (junk, stray PGP lines, ws-only lines);
     # validated in the same TLC batch, a rejection is spec_drift only
     init0 = [e["from"] for e in edges if not e["from"]["raw"] and e["from"]["atBeg"] and e["from"]["first"]
@@ -976,6 +1280,8 @@ def replay(ctx, case):
             r = build_and_dump([[tuple(kv) for kv in p] for p in job["orig"]])
             return ("cannot build/dump: %r" % (r,)) if isinstance(r, tuple) else None
         return run_doc(job)
+    if case["kind"] == "calls":
+        return exec_calls(case["steps"], case["texts"])
     if case["kind"] == "trace":
         lines = case["lines"]
         t = record(lines, case["form"], case.get("final_nl", True))
